@@ -147,6 +147,15 @@ func valuesOf(s *ref.Struct, tier universe.Tier) []*ref.Val {
 		max = 3000
 	}
 	v := universe.StructValues(s, tier, max)
+	if s.Unknown {
+		// retained unknown-field bytes: every value also with a non-empty holder
+		n := len(v)
+		for i := 0; i < n; i++ {
+			c := v[i].Clone()
+			c.Unk = unknownSamples[i%len(unknownSamples)]
+			v = append(v, c)
+		}
+	}
 	if len(valCache) > 64 {
 		for k := range valCache {
 			delete(valCache, k)
@@ -154,4 +163,11 @@ func valuesOf(s *ref.Struct, tier universe.Tier) []*ref.Val {
 	}
 	valCache[s] = v
 	return v
+}
+
+// well-formed unknown-field byte strings (header + value), one or several fields
+var unknownSamples = [][]byte{
+	{ref.WI16, 0x7f, 0xf0, 0x12, 0x34},
+	{ref.WString, 0x40, 0x00, 0, 0, 0, 3, 'a', 'b', 'c', ref.WBool, 0x40, 0x01, 1},
+	{ref.WList, 0x50, 0x00, ref.WStruct, 0, 0, 0, 2, ref.WByte, 0, 1, 9, 0, 0, ref.WMap, 0x50, 0x01, ref.WI32, ref.WString, 0, 0, 0, 1, 0, 0, 0, 5, 0, 0, 0, 1, 'z'},
 }
